@@ -1167,6 +1167,9 @@ def check(ctx):
     ctx.assume("struct.pack/unpack semantics as modelled in vlib.symbytes (byte order, field sizes via struct.calcsize)")
     ctx.note("Not decided: truncated/malformed datagrams; values outside the struct field ranges; identifiers that themselves contain framing tags.")
     ctx.trusted += ["re._parser (regex AST of the constant pattern)", "vlib.symbytes struct model"]
+    ctx.rule("R8", "the set-value command as the spa reads it: both set-value callbacks, interpreted on a model connection whose pack type, config version and log version are pairwise DIFFERENT, emit bytes equal to the published layout (sequence, pack type, length, 0x46, config version, log version, position, data) - the library's own decoder discards the two version bytes, so a builder that transposes them round-trips through it unnoticed (C13.R5's write model borrowed)")
+    from ..writemodel import device_writes as _dw4
+    _dw4(ctx.borrowed("R8", "C13"), repo, "R5", kinds=True)
 
 
 def hello_replies_are_claimed(ctx, repo, rule):
